@@ -97,6 +97,10 @@ func (e *Env) Call(site string) {
 			panic(ScriptError(90 + f.Arg))
 		case "panic-str":
 			panic(fmt.Sprintf("injected-panic-%d (100%% sure, 5%%d)", f.Arg)) // a message that is not a format string
+		case "panic-rt":
+			// a real run-time failure of the callback: the cause stays recognisable as a runtime.Error
+			var m map[int]int
+			m[f.Arg] = 1
 		}
 	}
 	e.Yield()
@@ -520,6 +524,28 @@ type CombDef struct {
 	Max   int
 	Build func(e *Env, srcs []ro.Observable[int]) ro.Observable[int]
 	Flags
+}
+
+// Apply builds the combination from a slice of the caller's that has spare capacity (as a slice that was
+// appended to has) and checks that building it left the caller's slice alone, spare capacity included.
+func (c *CombDef) Apply(e *Env, srcs []ro.Observable[int]) ro.Observable[int] {
+	args := make([]ro.Observable[int], len(srcs), len(srcs)+3)
+	copy(args, srcs)
+	o := c.Build(e, args)
+	full := args[:cap(args)]
+	for i := range full {
+		var want ro.Observable[int]
+		if i < len(srcs) {
+			want = srcs[i]
+		}
+		if full[i] != want {
+			msg := fmt.Sprintf("%s: building the operator modified the slice of observables the caller passed (index %d of %d, capacity %d)", c.Name, i, len(srcs), cap(args))
+			e.Violate("C05", "arguments-modified:"+c.Name, msg)
+			e.Violate("C12", "arguments-modified:"+c.Name, msg)
+			break
+		}
+	}
+	return o
 }
 
 var combs = map[string]*CombDef{}
